@@ -390,6 +390,7 @@ func (s *Storer) GetAofWritter(r io.Reader, offset int64) (*AofWriter, error) {
 
 	aofSeg := &dataSetAof{
 		left: offset,
+		size: -1, // being written, see hasWriter
 	}
 	s.dataSetMux.Lock()
 	s.dataSet.AppendAof(aofSeg)
